@@ -63,8 +63,11 @@ func newDisjunctionSearcher(ctx context.Context, indexReader index.IndexReader,
 	} else {
 		// attempt the "unadorned" disjunction optimization only when we
 		// do not need extra information like freq-norm's or term vectors
-		// and the requested min is simple
-		if len(qsearchers) > 1 && min <= 1 &&
+		// and no minimum is requested: the optimized searcher reports
+		// Min() == 0, so a boolean searcher consulting Min() to decide
+		// whether its should clause is required would treat an explicit
+		// minimum of 1 as optional
+		if len(qsearchers) > 1 && min < 1 &&
 			optionsDisjunctionOptimizable(options) {
 			rv, err := optimizeCompositeSearcher(ctx, "disjunction:unadorned",
 				indexReader, qsearchers, options)
